@@ -85,6 +85,67 @@ def _gen_sighash(rng):
 _replay.GENERATORS.update({'raw_sighash_is_reference': _gen_sighash, 'sighash_base_wrapper': _gen_sighash})
 
 
+# ---- bounded: the digest after the same mutable transaction object was hashed before and edited since --------------
+@contract('bitcoin.core.script:RawSignatureHash', name='raw_sighash_after_edit', prop=P)
+def raw_sighash_after_edit(script: Bytes(cls=CScript), txTo: Any, inIdx: Int, hashtype: Int):
+    """BOUNDED: hashing has no memory - the digest of a mutable transaction that was hashed before (legacy and BIP143)
+    and edited since is that of its current field values, and the call leaves it untouched"""
+    option(bounded=400)
+    requires(0 <= inIdx and 0 <= hashtype and hashtype <= 255 and CScript(script).is_valid())
+    ensures(result[0] == ref_legacy_sighash(script, txTo, inIdx, hashtype)[0]
+            and (result[1] is not None) == ref_legacy_sighash(script, txTo, inIdx, hashtype)[1])
+    ensures(snapshot_fields(txTo) == old(snapshot_fields(txTo)))
+
+
+def _build_c03_edit(inputs, chain):
+    import random
+    from bitcoin.core import CMutableTxOut, CMutableTxIn, CMutableOutPoint
+    from bitcoin.core.script import RawSignatureHash, SignatureHash, SIGVERSION_WITNESS_V0
+    rng = random.Random(inputs['seed'])
+    tx = _replay.decode_value(inputs['txTo'])
+    script = _replay.decode_value(inputs['script'])
+    for f in (lambda: RawSignatureHash(script, tx, inputs['inIdx'], inputs['first_hashtype']),
+              lambda: SignatureHash(script, tx, 0, inputs['first_hashtype'], amount=5, sigversion=SIGVERSION_WITNESS_V0),
+              tx.serialize, tx.GetTxid):
+        try:
+            f()
+        except Exception:
+            pass
+    for op in inputs['ops']:
+        if op == 'add_out':
+            tx.vout.append(CMutableTxOut(rng.choice([0, 1, 10**8]), CScript(b'\x51')))
+        elif op == 'del_out' and tx.vout:
+            del tx.vout[rng.randrange(len(tx.vout))]
+        elif op == 'value' and tx.vout:
+            tx.vout[rng.randrange(len(tx.vout))].nValue = rng.choice([0, 7, 10**8 + 1])
+        elif op == 'seq':
+            tx.vin[rng.randrange(len(tx.vin))].nSequence = rng.getrandbits(32)
+        elif op == 'sig':
+            tx.vin[rng.randrange(len(tx.vin))].scriptSig = CScript(b'\x51\x52')
+        elif op == 'lock':
+            tx.nLockTime = rng.getrandbits(32)
+        elif op == 'add_in':
+            tx.vin.append(CMutableTxIn(CMutableOutPoint(bytes(rng.getrandbits(8) for _ in range(32)), 1), CScript(), 9))
+        elif op == 'prevout':
+            tx.vin[rng.randrange(len(tx.vin))].prevout.n = rng.getrandbits(32)
+    return {'script': script, 'txTo': tx, 'inIdx': inputs['inIdx'], 'hashtype': inputs['hashtype']}
+
+
+_replay.BUILD_HOOKS['c03_edit'] = _build_c03_edit
+
+
+def _gen_sighash_edit(rng):
+    c = _gen_sighash(rng)
+    c['txTo'] = _gen_tx(rng, 'bitcoin.core:CMutableTransaction', min_in=1)
+    nin = len(c['txTo']['args'][0]['__list__'])
+    c['inIdx'] = rng.choice([0, 0, 1, nin - 1, nin])
+    return dict(c, __build__='c03_edit', seed=rng.getrandbits(32), first_hashtype=rng.choice([c['hashtype'], 1, 0x81, 3, 2]),
+                ops=[rng.choice(['add_out', 'del_out', 'value', 'seq', 'sig', 'lock', 'add_in', 'prevout']) for _ in range(rng.randint(1, 3))])
+
+
+_replay.GENERATORS['raw_sighash_after_edit'] = _gen_sighash_edit
+
+
 @contract('bitcoin.core.script:SignatureHash', name='sighash_base_any_subscript', prop=P)
 def sighash_base_any_subscript(script: Bytes(cls=CScript), txTo: Obj(OneOf(CTransaction, CMutableTransaction)),
                                inIdx: Int, hashtype: Int):
